@@ -498,6 +498,18 @@ fn mk<E: Endianness + 'static, R: CodesRead<E> + Debug + 'static>(r: R, caps: Ca
 /// junctions fall inside and between words of every size), and the first read attempted at a
 /// junction is answered with ErrorKind::Interrupted.  The behaviour is a function of the byte
 /// position and one flag, so reader state spaces over it still close.
+thread_local! {
+    /// number of ErrorKind::Interrupted answers given by Choppy sources on this thread
+    static FAULTS: std::cell::Cell<u64> = const { std::cell::Cell::new(0) };
+}
+
+/// Interrupted answers injected so far on this thread.  C11 allows an operation that met such an
+/// answer to report an error (never to return wrong data), so an Err observed while this counter
+/// moved is not held against the reader.
+pub fn fault_count() -> u64 {
+    FAULTS.with(|c| c.get())
+}
+
 #[derive(Debug, Clone)]
 pub struct Choppy {
     inner: std::io::Cursor<Vec<u8>>,
@@ -527,6 +539,7 @@ impl std::io::Read for Choppy {
         let p = self.inner.position();
         if p > 0 && Self::junction(p) && !self.interrupted {
             self.interrupted = true;
+            FAULTS.with(|c| c.set(c.get() + 1));
             return Err(std::io::Error::new(std::io::ErrorKind::Interrupted, "interrupted at a junction"));
         }
         let mut n = 1usize;
